@@ -11,38 +11,47 @@
 (*      every tree of the scope under every assignment of its atoms.       *)
 (*                                                                         *)
 (* (ii) A reference grammar  or < and < not < ( ) / leaf  given            *)
-(*      declaratively (WF/Den: split at the loosest top-level operator),   *)
-(*      Render(tree, style) into lexeme sequences, and a transcription of  *)
-(*      the two-accumulator loops parser/seqql.go:parseSeqQLFilter and     *)
-(*      parser/query_parser.go:parseExpr (PFilter / PExpr).  TLC checks    *)
+(*      declaratively (WF/RefTree/Den: split at the loosest top-level      *)
+(*      operator), Render(tree, style) into lexeme sequences, and a        *)
+(*      transcription of the two-accumulator loops                         *)
+(*      parser/seqql.go:parseSeqQLFilter (PFilter/PSub/PLoop) and          *)
+(*      parser/query_parser.go:parseExpr (QExpr/QSub/QLoop).  TLC checks   *)
 (*      "algorithm = reference": the accumulator parsers accept exactly    *)
-(*      the grammar and build a tree with the denotation of the written    *)
-(*      expression, which is the denotation of the tree that was rendered. *)
-(*      in(...) denotes a disjunction, several words on a text field a     *)
-(*      conjunction.                                                       *)
+(*      the grammar (AcceptsExactlyTheGrammar, over every lexeme sequence) *)
+(*      and build a tree with the denotation of the written expression,    *)
+(*      which is the denotation of the tree that was rendered              *)
+(*      (RenderIsWellFormed, RenderDenotesTree, ParserEqualsReference,     *)
+(*      LegacyEqualsSeqQL).  in(...) denotes a disjunction, several words  *)
+(*      on a text field a conjunction.                                     *)
 (*                                                                         *)
 (* (iii) The totality walk: every sequence over a hostile lexeme alphabet  *)
-(*      up to a length bound, for every mapping type of the field; the     *)
-(*      only allowed outcomes are "ok" and "err".                          *)
+(*      up to a length bound, for every mapping type of the field, and     *)
+(*      nesting-depth classes (Mode "deep"); the only allowed outcomes are *)
+(*      "ok" and "err" (AllowedOutcomes).                                  *)
 (*                                                                         *)
-(* Every state is emitted as a CASE; harness/cmd/parserdrv replays them    *)
-(* into parser.ParseSeqQL / ParseQuery / ParseAggregationFilter.           *)
+(* Modes (one cfg each): "tree" exhaustive source trees x styles,          *)
+(* "randtree" seeded random trees (-simulate), "gwalk" every sequence over *)
+(* the grammar lexemes, "walk" hostile sequences (exhaustive, or random    *)
+(* walks under -simulate), "deep" nesting classes.  Every state is emitted *)
+(* as a CASE; harness/cmd/parserdrv replays them into parser.ParseSeqQL /  *)
+(* ParseQuery / ParseAggregationFilter and GrpcV1.Search.                  *)
 (***************************************************************************)
 EXTENDS Integers, Sequences, FiniteSets, TLC, Json
 
-CONSTANTS Mode,         \* "tree" | "randtree" | "gwalk" | "walk"
-          LeafSet,      \* "bool" | "rich"
+CONSTANTS Mode,         \* "tree" | "randtree" | "gwalk" | "walk" | "deep"
+          LeafSet,      \* "bool" | "rich" | "rich3"
           Depth,        \* depth bound of source trees
           ParenStyles,  \* subset of {"min", "full", "red"}
           SpellNames,   \* subset of {"s1", "s2", "s3", "s4"}
           EmitTrees,    \* TRUE: emit one sem case per (tree, paren, spell)
           Alpha,        \* walk: "A" | "B" | "S";  gwalk: ignored
           MaxLen,       \* walk/gwalk: length bound of the walked prefix
-          TailLen       \* walk: every frontier prefix stands for all its extensions by <= TailLen lexemes
+          TailLen,      \* walk: every frontier prefix stands for all its extensions by <= TailLen lexemes
+          DeepReps      \* deep: repetition counts (nesting depth classes)
 
-VARIABLES tr, sty, grown, pre
-vars == <<tr, sty, grown, pre>>
-view == <<tr, sty, pre>>
+VARIABLES tr, sty, grown, pre, rep
+vars == <<tr, sty, grown, pre, rep>>
+view == <<tr, sty, pre, rep>>
 
 \* ======================================================================
 \* (i) abstract syntax, evaluation, NOT propagation
@@ -56,7 +65,9 @@ Bin(o, a, b) == [op |-> o, l |-> a, r |-> b]
 BoolLeaves == {Lit("a", "x"), Lit("b", "x"), Lit("c", "x")}
 RichLeaves == {Lit("a", "x"), Lit("p", "x"), Lit("t", "y"),
                InLeaf("a", <<"x", "y">>), WordsLeaf("t", <<"x", "y">>)}
-Leaves == IF LeafSet = "bool" THEN BoolLeaves ELSE RichLeaves
+\* the random trees also use three-element lists and phrases
+Rich3Leaves == RichLeaves \cup {InLeaf("a", <<"y", "x", "z">>), WordsLeaf("t", <<"z", "x", "y">>)}
+Leaves == CASE LeafSet = "bool" -> BoolLeaves [] LeafSet = "rich" -> RichLeaves [] LeafSet = "rich3" -> Rich3Leaves
 \* mapping used for the semantic cases (seq.Mapping built by the driver from this record)
 FieldTypes == [a |-> "keyword", b |-> "keyword", c |-> "keyword", p |-> "path", t |-> "text"]
 
@@ -311,6 +322,17 @@ TotCase(p) == LET k == IF Mode = "walk" /\ Len(p) = MaxLen THEN TailLen ELSE 0 I
               [kind |-> "tot", pre |-> p, ext |-> (IF k > 0 THEN Alphabet ELSE <<>>), k |-> k,
                maps |-> MapTypes, allowed |-> AllowedOutcomes]
 
+\* nesting-depth classes: the string  open^n core close^n.  Recursive descent (parseSeqQLSubexpr, parseSubexpr)
+\* and propagateNot recurse once per open piece; the property allows no other outcome than for short inputs.
+DeepShapes == {[name |-> "paren",   open |-> <<"(">>, close |-> <<")">>],
+               [name |-> "unclosed", open |-> <<"(">>, close |-> <<>>],
+               [name |-> "not",     open |-> <<"not", "<SP>">>, close |-> <<>>],
+               [name |-> "notparen", open |-> <<"not", "(">>, close |-> <<")">>],
+               [name |-> "andchain", open |-> <<"f", ":", "x", "<SP>", "and", "<SP>", "not", "<SP>">>, close |-> <<>>]}
+DeepCase(name, n) == LET sh == CHOOSE x \in DeepShapes : x.name = name IN
+                     [kind |-> "deep", shape |-> name, open |-> sh.open, core |-> <<"f", ":", "x">>, close |-> sh.close,
+                      n |-> n, maps |-> <<"keyword">>, allowed |-> AllowedOutcomes]
+
 GLx(n) == CASE n = "A" -> LeafLx(Lit("a", "x")) [] n = "B" -> LeafLx(Lit("b", "x")) [] OTHER -> Kw(n)
 GSeq(p) == [i \in DOMAIN p |-> GLx(p[i])]
 
@@ -328,27 +350,30 @@ RandTree(n) ==
          [] o = "not" -> Not(RandTree(n - 1))
          [] OTHER -> Bin(o, RandTree(n - 1), RandTree(n - 1))
 
-Init == /\ sty = NoSty /\ grown = FALSE /\ pre = <<>>
+Init == /\ sty = NoSty /\ grown = FALSE /\ pre = <<>> /\ rep = 0
         /\ IF Mode = "tree" THEN tr \in T(IF Depth > 0 THEN Depth - 1 ELSE 0) ELSE tr = NoTree
 
 Grow == /\ Mode = "tree" /\ ~grown /\ sty = NoSty /\ Depth > 0
         /\ \/ tr' = Not(tr)
            \/ \E o \in {"and", "or"}, r \in T(Depth - 1) : tr' = Bin(o, tr, r)
-        /\ grown' = TRUE /\ UNCHANGED <<sty, pre>>
+        /\ grown' = TRUE /\ UNCHANGED <<sty, pre, rep>>
 ChooseParen == /\ Mode = "tree" /\ sty = NoSty
                /\ \E ps \in ParenStyles : sty' = [paren |-> ps, spell |-> "none"]
-               /\ UNCHANGED <<tr, grown, pre>>
+               /\ UNCHANGED <<tr, grown, pre, rep>>
 ChooseSpell == /\ Mode = "tree" /\ EmitTrees /\ sty.paren # "none" /\ sty.spell = "none"
                /\ \E sn \in SpellNames : sty' = [sty EXCEPT !.spell = sn]
-               /\ UNCHANGED <<tr, grown, pre>>
+               /\ UNCHANGED <<tr, grown, pre, rep>>
 RandStep(z) == /\ Mode = "randtree"
                /\ tr' = RandTree(Depth)
                /\ sty' = [paren |-> Pick(ParenStyles), spell |-> Pick(SpellNames)]
-               /\ UNCHANGED <<grown, pre>>
+               /\ UNCHANGED <<grown, pre, rep>>
 Walk == /\ Mode \in {"walk", "gwalk"} /\ Len(pre) < MaxLen
         /\ \E i \in DOMAIN Alphabet : pre' = Append(pre, Alphabet[i])
+        /\ UNCHANGED <<tr, sty, grown, rep>>
+Deep == /\ Mode = "deep" /\ rep = 0
+        /\ \E sh \in DeepShapes, n \in DeepReps : pre' = <<sh.name>> /\ rep' = n
         /\ UNCHANGED <<tr, sty, grown>>
-Next == Grow \/ ChooseParen \/ ChooseSpell \/ RandStep(sty) \/ Walk
+Next == Grow \/ ChooseParen \/ ChooseSpell \/ RandStep(sty) \/ Walk \/ Deep
 Spec == Init /\ [][Next]_vars
 
 \* ======================================================================
@@ -400,4 +425,6 @@ Emit ==
             \/ PrintT(<<"CASE", ToJson(SemCase(GSeq(pre), SpellStyle(IF Len(pre) % 2 = 0 THEN "s1" ELSE "s2"), "gwalk", NoAst))>>))
     [] Mode = "walk" ->
          PrintT(<<"CASE", ToJson(TotCase(pre))>>)
+    [] Mode = "deep" ->
+         (rep = 0 \/ PrintT(<<"CASE", ToJson(DeepCase(pre[1], rep))>>))
 =============================================================================
